@@ -293,6 +293,10 @@ func (x *Exec) zeroOf(t types.Type) Term {
 	if isTime(t) {
 		return intLit(0)
 	}
+	if el, ok := isSetType(t); ok {
+		srt := arraySort(x.S.SortOf(el), "Bool")
+		return Term{"((as const " + srt + ") false)", srt}
+	}
 	switch u := t.Underlying().(type) {
 	case *types.Basic:
 		switch {
@@ -366,6 +370,9 @@ func (x *Exec) typeInv(v Term, t types.Type, depth int) Term {
 	if isTime(t) {
 		return tTrue
 	}
+	if _, ok := isSetType(t); ok {
+		return tTrue
+	}
 	switch u := t.Underlying().(type) {
 	case *types.Basic:
 		if u.Info()&types.IsInteger != 0 && x.mode == ModeInt {
@@ -420,6 +427,9 @@ func (x *Exec) sliceParts(v Term) (ref, off, ln, cp Term) {
 // refsBelow says every reference inside v is at most the watermark.
 func (x *Exec) refsBelow(v Term, t types.Type, wm Term, depth int) Term {
 	if isTime(t) {
+		return tTrue
+	}
+	if _, ok := isSetType(t); ok {
 		return tTrue
 	}
 	switch u := t.Underlying().(type) {
